@@ -15,7 +15,7 @@ import json
 import os
 import random
 
-from .. import core, tlc
+from .. import core, tlc, clientlib
 from . import C12
 
 LEVEL = "fault_enumeration"
@@ -206,7 +206,24 @@ def main(ctx):
         if not ok:
             ctx.violation("proxy_recovery", {"proxy": r}, what="proxy after a cut at %d (depth %d): first %s (%s), second %s (%s), third %s (%s), gateway kept %s, connections %s" % (
                 r["k"], r["depth"], r["first"], r["first_exc"], r["second"], r["second_exc"], r.get("third"), r.get("third_exc"), r["gateway_after_failure"], r["connections"]))
-    ev.extra.update({"runs": len(lines), "proxy_recovery_cases": len(pj)})
+    # the polling driver (poll.run / poll.loop) as a state machine (spec/PollRun.tla): every pattern of poll successes and failures of
+    # 1..7 polls; TLC checks BackoffBounds, NeverBusy, Cadence, GrowsThenResets and emits when each attempt happens and how many
+    # failures are reported; the real driver runs each pattern over a virtual clock with a scripted proxy
+    cfgp = os.path.join(wd, "pollrun.cfg")
+    tlc.write_cfg(cfgp, ["SPECIFICATION Spec", "INVARIANT BackoffBounds", "INVARIANT NeverBusy", "INVARIANT Cadence", "PROPERTY GrowsThenResets",
+                         "CONSTRAINT Emit", "CHECK_DEADLOCK FALSE", "CONSTANTS", " Cycle = 32", " BMin = 32", " BMax = 320", " Patterns <- AllPatterns"])
+    rp = ctx.tlc("poll-driver", "MC_PollRun", cfgp, spec_dir=wd, timeout=600, workers=4)
+    pats = [j for j in rp.json if j.get("k") == "poll"]
+    if not pats:
+        ctx.machinery.append("no poll patterns from PollRun")
+        return
+    for j, r in zip(pats, core.pmap(clientlib.poll_run_probe, pats, chunksize=16)):
+        ev.case(key=("pollrun", json.dumps(j["pat"])), nontrivial=not all(j["pat"]))
+        if not r["exact"] or r["at"] != j["at"] or r["fails"] != j["fails"] or r["results"] != sum(1 for x in j["pat"] if x):
+            ctx.violation("poll_driver", {"pattern": j, "got": r},
+                          what="poll.run with polls %s: attempts at %s /32 s, %d failures reported, %d results processed; the specification says attempts at %s, %d failures, %d results" % (
+                              "".join("S" if x else "F" for x in j["pat"]), r["at"], r["fails"], r["results"], j["at"], j["fails"], sum(1 for x in j["pat"] if x)))
+    ev.extra.update({"runs": len(lines), "proxy_recovery_cases": len(pj), "poll_driver_patterns": len(pats)})
 
 
 def replay(ctx, path):
